@@ -320,7 +320,7 @@ _C02 = ["truncating_conventions", "euclidean_conventions",
         "ubig_ibig_div_rem_exact", "ibig_is_multiple_of_exact",
         "const_divisor_new_value", "const_divisor_eq_plain", "const_divisor_ibig_exact",
         "nm_invert_word_exact", "nm_div_rem_2by1_exact", "nm_invert_double_word_exact",
-        "nm_div_rem_3by2_exact", "nm_div_rem_4by2_exact", "nm_contracts_discharged",
+        "nm_div_rem_3by2_exact", "nm_div_rem_4by2_exact", "nm_div_rem_1by1_2by2_exact", "nm_contracts_discharged",
         "div_scratch_memory_suffices", "prim_zero_divisor", "prim_min_neg_one", "prim_kernels_exact"]
 _GEN = ["ibig_div_exact", "ibig_rem_exact", "ibig_divrem_exact", "ibig_div_euclid_exact",
         "ibig_rem_euclid_exact", "ibig_divrem_euclid_exact", "ubig_ibig_rem_exact", "ubig_ibig_divrem_exact"]
@@ -347,6 +347,11 @@ REFINED = [
     "ConstDivisor::new (single/double/large, zero -> divide-by-zero panic), value(); div_rem_small_single, div_rem_small_double, ConstSingleDivisor::{rem_dword, rem_large}, ConstDoubleDivisor::{rem_dword, rem_large}; Div / Rem / DivRem<&ConstDivisor> for TypedRepr, IBig forms",
 ]
 FRONTIER = [
+    "operator-trait plumbing (helper_macros forward_ubig_binop_to_repr / forward_ibig_binop_to_repr / forward_*_ubig_ibig, impl_binop_assign_by_taking, the mem::take / clone wrappers of the ConstDivisor impls): WHICH dispatch function (Div / Rem / DivRem on TypedRepr) each trait method and each of its 4 ownership + 2 assign call forms reaches is written by hand in the driver; tied by the correspondence only (every form is evaluated, a difference prints forms-disagree) - no theorem. (The sign tables those macros expand are Tie A + proved.)",
+    "is_multiple_of_const(0): modelled as an undocumented panic, not generated and not compared (the real panic texts are Rust's `%` by zero resp. a debug_assert, C16's subject)",
+    "ConstDivisor::from_word / from_dword: driven through the model of ConstDivisor::new (same constructor calls in the source); ConstLargeDivisor::rem_large / rem_repr and the Reducer impls belong to C13 and are not modelled here",
+    "primitive.rs / math.rs word helpers (double_word, split_dword, extend_word, shrink_dword, highest_dword, lowest_dword, split_hi_word) are inlined as Nat arithmetic; std intrinsics (leading_zeros, trailing_zeros, is_power_of_two, <<, >>, &, |, checked_div) and, for the primitive kernels, Rust's `/` `%` and std div_euclid / rem_euclid are taken at their documented meaning (see ASSUMPTIONS)",
+    "the allocator side of MemoryAllocation::new (alloc returning null, size > isize::MAX) is C17's; C02 proves only that the requested scratch size suffices",
 ]
 RULE = ("corpus, then: every form (u/i/ui/iu x div,rem,divrem,diveuclid,remeuclid,divremeuclid,ismultiple; ConstDivisor cdiv,crem,cdivrem,cdivrem2 "
         "for UBig and IBig; is_multiple_of_const; ConstDivisor::value/from_word/from_dword) x {zero divisor with dividends of each representation class; "
